@@ -12,7 +12,7 @@ import time
 from concurrent.futures import ThreadPoolExecutor
 
 WRAP = ("-Wl,--wrap=malloc,--wrap=free,--wrap=calloc,--wrap=realloc,--wrap=posix_memalign,"
-        "--wrap=aligned_alloc,--wrap=memalign,--wrap=memcpy,--wrap=memmove,--wrap=memset")
+        "--wrap=aligned_alloc,--wrap=memalign,--wrap=memcpy,--wrap=memmove,--wrap=memset,--wrap=__cxa_allocate_exception")
 
 VARIANTS = {
     # name: flags for instrumented TUs
@@ -392,6 +392,10 @@ def signature(res, syms):
     div = res.get("diverged", [])
     if div:
         sig["diverged_ops"] = sorted(set(d["name"].split(":")[0] for d in div))
+    if res.get("stuck") and cls[0] in ("deadlock", "progress"):
+        blocked = [x for x in res["stuck"] if x["state"] == "blocked"]
+        sig["stuck_ops"] = sorted(set(x["op"].split(":")[0] for x in (blocked or res["stuck"]) if x["op"] != "-"))
+        sig["stuck_functions"] = sorted(set(short_fn(f) for f, _ in syms.funcs([x["pc"] for x in blocked if x["pc"]])))[:6]
     if res.get("crash"):
         sig["crash_op"] = res["crash"].get("op", "?").split(":")[0]
         sig["crash_signal"] = res["crash"].get("sig") or res["crash"].get("wsig")
@@ -411,6 +415,8 @@ def sig_key(sig):
             k.append(sig["object"])
     elif sig["class"] == "crash":
         k.append(sig.get("crash_op"))
+    elif sig["class"] in ("deadlock", "progress"):
+        k.append(",".join(sig.get("stuck_ops", [])))
     return tuple(k)
 
 
@@ -428,6 +434,8 @@ def sig_compatible(sig, target):
         return bool(a & b) and sig.get("object") == target.get("object")
     if target["class"] == "crash":
         return sig.get("crash_op") == target.get("crash_op")
+    if target["class"] in ("deadlock", "progress"):
+        return bool(set(sig.get("stuck_ops", [])) & set(target.get("stuck_ops", []))) or not target.get("stuck_ops")
     return True
 
 
@@ -549,6 +557,10 @@ def describe_sig(sig):
         s += " in " + ", ".join(sig["functions"][:4])
     if sig.get("diverged_ops"):
         s += "; wrong result of " + ",".join(sig["diverged_ops"][:3])
+    if sig.get("stuck_ops"):
+        s += ": tasks stuck inside " + ",".join(sig["stuck_ops"][:4])
+        if sig.get("stuck_functions"):
+            s += " (blocked in " + ", ".join(sig["stuck_functions"][:3]) + ")"
     if sig.get("crash_op"):
         s += "; signal %s while a task was inside %s" % (sig.get("crash_signal"), sig["crash_op"])
     return s
